@@ -27,7 +27,7 @@ theorem gen_adv (G : GGeo) (mem0 : Array Block) (g : GS) (acc : Bytes) (dpos r l
   obtain ⟨Xp2, hP2, hXp2s, kP2⟩ := okeep_block (by have := K2 G.bp; rw [hPm] at this; exact this)
   obtain ⟨XD2, hD2, hXD2s, kD2⟩ := okeep_block (by have := K2 G.bd; rw [hDm] at this; exact this)
   have ho2 : PObjV Xp2 g.V g.C g.rc g.rl := pobj_keep kP2 ho (fun q _ h => by omega) (fun q h1 _ h => by omega)
-  have hcb2 : PCb Xp2 G.ud := pcb_keep kP2 hcb (fun q h1 _ => ⟨fun h => by omega, fun h => by omega⟩)
+  have hcb2 : PCb Xp2 G.ud G.cbv := pcb_keep kP2 hcb (fun q h1 _ => ⟨fun h => by omega, fun h => by omega⟩)
   have hXH2s : XH2.size = 32 := by
     obtain ⟨Z, hz, hzs, _⟩ := okeep_block (by have := K2 G.n0; rw [hHm] at this; exact this)
     rw [hH2] at hz; cases hz; rw [hzs]; exact hHs
